@@ -86,9 +86,9 @@ class BaseMQTTGateway(Gateway):
 
         Return a MQTT topic, payload and qos-level as a tuple.
         """
-        msg = Message(data, self)
-        payload = str(msg.payload)
-        msg.payload = ""
+        # The payload is free text and may contain the delimiter.
+        *header, payload = data.rstrip().split(";", 5)
+        msg = Message(";".join(header + [""]), self)
         # prefix/node/child/type/ack/subtype : payload
         return f"/{msg.encode('/')}"[:-2], payload, msg.ack
 
